@@ -161,3 +161,6 @@ func Matches(s, pattern string) bool { return regexp.MustCompile(pattern).MatchS
 
 // HasPrefix is strings.HasPrefix (usable in specifications without forking).
 func HasPrefix(s, p string) bool { return strings.HasPrefix(s, p) }
+
+// Contains is strings.Contains (usable in specifications without forking).
+func Contains(s, sub string) bool { return strings.Contains(s, sub) }
